@@ -17,10 +17,12 @@ CONSTANTS
   Dist = 3
   KD = 2
   Export = FALSE
+  InterpIds = {}
 INVARIANT TelescopingPartial
 INVARIANT Telescoping
 INVARIANT CoefNonNeg
 INVARIANT OwnTemperaturesOnly
+INVARIANT PerLayerSource
 INVARIANT IsothermalIdentity
 INVARIANT HotColdBounds
 INVARIANT FluxIdentityIffWeights
